@@ -47,6 +47,8 @@ def lock_stages(profile, quick_cases, thorough_cases, thorough_r10=None):
           "max_seconds": 1500},
          {"variant": "lock_fuzz", "binary": "lock_fuzz", "replay_variant": "lock_r1", "replay_binary": "lock_harness", "profile": profile,
           "engine": "libFuzzer (coverage-guided; bytes decoded into a lock-DSL case, oracle inside the target)", "cases_per_worker": 60000, "max_seconds": 900}]
+    t += [{"variant": "lock_r3nohint", "binary": "lock_harness", "profile": profile, "cases_per_worker": thorough_cases // 4, "max_seconds": 900,
+           "engine": "same generators against the library built without CPP_UTILITY_HAS_SPINLOCK_HINT (bare spin loops) and CPP_UTILITY_SPINLOCK_RETRY_NUM=3"}]
     t += [{"variant": "lock_r1", "binary": "lock_harness", "profile": profile, "sweep": True, "extra": [], "cases_per_worker": 0, "max_seconds": 900,
            "engine": "bounded sweep: catalogue of two-thread one-transaction programs x ALL schedules with <= 2 step-level preemptions (complete for that sub-space)"},
           {"variant": "lock_r1", "binary": "lock_harness", "profile": profile, "sweep": True, "extra": ["--three"], "cases_per_worker": 0, "max_seconds": 1500,
@@ -93,7 +95,8 @@ RULES.update({
     "C18": ZIPF_GEN + "n >= 2 and every bin was compared with the long-double reference (exact class: value, monotonicity, last bin; approx class: "
                       "bit-identity for n <= 100, last bin, 0.01-closeness for n >= 1000 and alpha in [0,3])",
     "C19": ZIPF_GEN + "output sequences of length >= 16 with >= 2 distinct values were compared (twin / copy / copy-assigned / moved / move-assigned / "
-                      "re-sampled / shared between 2-8 threads)",
+                      "re-sampled / copies after their source changed or died / a warm and a cold generator shared between 2-8 threads that draw and read GetCDF; "
+                      "second stage: the same cases with >= 2 threads in a ThreadSanitizer build)",
 })
 ZIPF_ASSUME = [
     "admissible parameters only: n and n+1 representable in the integer type, min + n - 1 representable, finite alpha >= 0, table fits in memory (tier cap on n)",
@@ -109,6 +112,14 @@ def zipf_stages(profile, quick_cases, thorough_cases):
                           "cases_per_worker": 300000 if profile == "C06" else 60000, "max_seconds": 1200}]}
 
 
+def zipf_c19_stages(quick_cases, thorough_cases):
+    st = zipf_stages("C19", quick_cases, thorough_cases)
+    tsan = {"variant": "zipf_tsan", "binary": "zipf_harness", "profile": "C19", "extra": ["--force-threads"], "engine": "rapidcheck generators, ThreadSanitizer build"}
+    st["quick"].append(dict(tsan, cases_per_worker=250, max_seconds=200))
+    st["thorough"].append(dict(tsan, cases_per_worker=4000, max_seconds=1200))
+    return st
+
+
 RULES["C20"] = ("cases = sequential histories over {Pin(thread, via CreateEpochGuard|GetProtectedEpochs), Unpin(thread), Forward(n up to 1000), ExitAndReplace(thread)} "
                 "generated by rapidcheck's state-machine mode (rc::state) against a reference set model, executed on one EpochManager with capacity-1 helper OS "
                 "threads that run one command at a time; every single forward is checked (list == model set, GetMinEpoch, live list nodes <= referenced "
@@ -118,9 +129,9 @@ RULES["C20"] = ("cases = sequential histories over {Pin(thread, via CreateEpochG
 
 
 def seq_stages(quick_cases, thorough_cases):
-    return {"quick": [{"variant": f"seq_c{c}", "binary": "epoch_seq", "profile": "C20", "cases_per_worker": quick_cases, "max_seconds": 200} for c in (5, 3)],
+    return {"quick": [{"variant": f"seq_c{c}", "binary": "epoch_seq", "profile": "C20", "cases_per_worker": quick_cases, "max_seconds": 200} for c in (5, 3, 70)],
             "thorough": [{"variant": f"seq_c{c}", "binary": "epoch_seq", "profile": "C20", "cases_per_worker": thorough_cases, "max_seconds": 1500, "extra": ["--big"]}
-                         for c in (5, 3, 2)]}
+                         for c in (5, 3, 2, 70)]}
 
 
 PROPS = {
@@ -140,21 +151,22 @@ PROPS = {
     "C10": {"kinds": ["GAP", "EXCLUSION-CONV"], "stages": lock_stages("C10", 8000, 60000), "assumptions": LOCK_ASSUME},
     "C11": {"kinds": ["ORDER"], "stages": lock_stages("C11", 8000, 60000), "assumptions": LOCK_ASSUME},
     "C12": {"kinds": ["LEAK", "NODE_BOUND", "STALE-NODE", "CRASH-UAF"], "stages": lock_stages("C12", 8000, 60000), "assumptions": LOCK_ASSUME},
-    "C05": {"kinds": ["IDRANGE", "IDSTABLE", "IDUNIQUE"], "stages": thread_stages("C05", [1, 2, 3, 4, 6, 8], 300, [1, 2, 3, 4, 5, 6, 7, 8], 4000),
+    "C05": {"kinds": ["IDRANGE", "IDSTABLE", "IDUNIQUE"], "stages": thread_stages("C05", [1, 2, 3, 4, 6, 8, 70], 300, [1, 2, 3, 4, 5, 6, 7, 8, 70], 4000),
             "assumptions": THREAD_ASSUME},
-    "C14": {"kinds": ["STUCK", "FINAL_BUSY", "ID-STARVE"], "stages": thread_stages("C14", [1, 2, 3, 4, 6, 8], 300, [1, 2, 3, 4, 5, 6, 7, 8], 4000), "assumptions": THREAD_ASSUME},
-    "C15": {"kinds": ["HB-REUSE", "HB-LIVE", "HB-EXIT"], "stages": thread_stages("C15", [2, 3, 4], 800, [1, 2, 3, 4, 5, 6, 7, 8], 4000), "assumptions": THREAD_ASSUME},
-    "C04": {"kinds": ["PIN-LIST", "PIN-MIN", "GUARD-UNPINNED"], "stages": thread_stages("C04", [2, 3, 5], 500, [2, 3, 4, 5, 6, 7, 8], 3000), "assumptions": THREAD_ASSUME},
+    "C14": {"kinds": ["STUCK", "FINAL_BUSY", "ID-STARVE"], "stages": thread_stages("C14", [1, 2, 3, 4, 6, 8], 300, [1, 2, 3, 4, 5, 6, 7, 8, 70], 4000), "assumptions": THREAD_ASSUME},
+    "C15": {"kinds": ["HB-REUSE", "HB-LIVE", "HB-EXIT"], "stages": thread_stages("C15", [2, 3, 4, 70], 600, [1, 2, 3, 4, 5, 6, 7, 8, 70], 4000), "assumptions": THREAD_ASSUME},
+    "C04": {"kinds": ["PIN-LIST", "PIN-MIN", "GUARD-UNPINNED"], "stages": thread_stages("C04", [2, 3, 5, 70], 400, [2, 3, 4, 5, 6, 7, 8, 70], 3000), "assumptions": THREAD_ASSUME},
     "C16": {"kinds": ["FWD-BLOCKED", "EPOCH-STEP", "CUR-DECREASED", "MIN-GT-CUR", "QUIESCENT-LIST", "QUIESCENT-MIN"],
-            "stages": thread_stages("C16", [2, 3, 5], 500, [2, 3, 4, 5, 6, 7, 8], 3000), "assumptions": THREAD_ASSUME},
+            "stages": thread_stages("C16", [2, 3, 5, 70], 400, [2, 3, 4, 5, 6, 7, 8, 70], 3000), "assumptions": THREAD_ASSUME},
     "C17": {"kinds": ["LIST-OWNER", "LIST-ORDER", "LIST-PREV", "LIST-STABLE", "GUARD-EPOCH", "GUARD-MOVE", "CRASH-UAF", "CRASH"],
-            "stages": thread_stages("C17", [2, 3, 5], 500, [2, 3, 4, 5, 6, 7, 8], 3000), "assumptions": THREAD_ASSUME},
+            "stages": thread_stages("C17", [2, 3, 5, 70], 400, [2, 3, 4, 5, 6, 7, 8, 70], 3000), "assumptions": THREAD_ASSUME},
     "C06": {"kinds": ["ZIPF-EXCEPTION", "ZIPF-RANGE", "ZIPF-INVCDF", "ZIPF-INVCDF-SEAM", "ZIPF-DEFAULT", "CRASH"], "stages": zipf_stages("C06", 100000, 600000),
             "native_shrink": True, "assumptions": ZIPF_ASSUME},
     "C18": {"kinds": ["ZIPF-EXCEPTION", "ZIPF-CDF-VALUE", "ZIPF-CDF-MONOTONE", "ZIPF-CDF-LAST", "ZIPF-APPROX-EXACT", "ZIPF-APPROX-CLOSE", "ZIPF-APPROX-CLOSE-TAIL",
                       "ZIPF-APPROX-CLOSE-NEAR1", "CRASH"], "stages": zipf_stages("C18", 9000, 40000), "native_shrink": True, "assumptions": ZIPF_ASSUME},
-    "C19": {"kinds": ["ZIPF-EXCEPTION", "ZIPF-PURE", "ZIPF-SHARED", "ZIPF-REJECT", "CRASH"], "stages": zipf_stages("C19", 3500, 30000), "native_shrink": True,
-            "assumptions": ZIPF_ASSUME},
+    "C19": {"kinds": ["ZIPF-EXCEPTION", "ZIPF-PURE", "ZIPF-SHARED", "ZIPF-REJECT", "ZIPF-RACE", "CRASH", "CRASH-UAF"], "stages": zipf_c19_stages(3500, 30000), "native_shrink": True,
+            "assumptions": ZIPF_ASSUME + ["the ThreadSanitizer stage judges a data race between const calls (operator(), GetCDF) of threads sharing one generator as a "
+                                          "violation (ZIPF-RACE): such a race is a write inside a call that must not change the generator"]},
     "C20": {"kinds": ["EPOCHSEQ", "CRASH", "CRASH-UAF"], "stages": seq_stages(1200, 6000), "native_shrink": True,
             "assumptions": ["histories are sequential: helper threads execute one command at a time, nothing runs concurrently with ForwardGlobalEpoch",
                             "at most one guard per thread; the observing main thread owns one ID, so capacity-1 worker threads",
@@ -252,7 +264,8 @@ MANIFEST_TEXT.update({
                       "property-based testing: differential check of GetCDF against an independent long-double reference over generated (n, alpha, type, min)"),
     "C19": _pure_text("rapidcheck generators (harness/zipf_harness)",
                       "Metamorphic/differential: twins, copies, moved and re-sampled generators give identical sequences from identical engine states; a shared const "
-                      "generator gives each of 2-8 threads its solo sequence; max < min throws.", "DESIGN.md 5/C19",
+                      "generator (sampled before or not) gives each of 2-8 threads its solo sequence and GetCDF values, also under ThreadSanitizer (no data race inside the "
+                      "const calls); copies survive re-assignment/destruction of their source; max < min throws.", "DESIGN.md 5/C19",
                       "property-based testing: metamorphic relations over generated parameters, engine seeds and sequence lengths"),
 })
 
